@@ -18,12 +18,17 @@ DEC_LITS = ["100.12", "100.125", "100.115", "0.3", "0.30000000000000004", "0.299
             "7.25", "7.254", "999.99", "999.994", "1000", "7", "0"]
 
 INT_LITS = ["-3", "-1", "0", "1", "2", "7"]
-FLOAT_LITS = ["0.5", "-1.5", "2.0", "2.5", "7.25", "-0.5"]
+FLOAT_LITS = ["0.5", "-1.5", "2.0", "2.5", "7.25", "-0.5",
+              # exponent notation, integral and not (a renderer must keep them decimals)
+              "1e1", "1.5e1", "-1.0E+1", "250e-1", "2.5e-1", "7E0"]
 STR_LITS = ["", "a", "ab", "b%", "a_c", "o'x", "x\\y", " pad ", "abcabc", "%", "_", "bc",
             "c", "--", "a;b",
             # shapes that an (unwanted) input transformation would alter: percent-encoding,
             # plus-as-space, backslash escapes, non-NFC text, entities
-            "a%41b", "a+b", "a\\nb", "e\u0301", "&amp;"]
+            "a%41b", "a+b", "a\\nb", "e\u0301", "&amp;",
+            # contents that spell a literal of another kind / a keyword / an operator
+            "P1D", "pt5m", "-P1Y2M", "2020-01-01", "10:00:00", "true", "null", "1.5", "1e1",
+            "6c0e37e3-e856-45ee-bd58-484b11882c67", "a eq b", "not", "(", ")", "(a", "b)"]
 DT_LITS = ["2020-01-01T00:00:00", "2019-12-31T23:59:59", "2021-06-15T12:30:45",
            "2000-02-29T06:07:08", "0001-01-01T00:00:00", "9999-12-31T23:59:59"]
 DATE_LITS = ["2020-01-01", "2019-12-31", "2021-06-15", "2000-02-29", "0001-01-01", "9999-12-31"]
@@ -190,7 +195,10 @@ def gen(rng, p, typ, depth):
             lt, rt = rng.choice([("float", "float"), ("float", "int"), ("int", "float")])
             if op == "mod":
                 op = "add"
-        return ("bin", op, gen(rng, p, lt, depth - 1), gen(rng, p, rt, depth - 1))
+        l = gen(rng, p, lt, depth - 1)
+        if p.same_operands and lt == rt and rng.random() < 0.07:
+            return ("bin", op, l, l)       # (a sub b) sub (a sub b): operands equal by value
+        return ("bin", op, l, gen(rng, p, rt, depth - 1))
     if typ in ("int", "float") and r < 0.68 and (p.neg or p.neg_literal):
         x = gen(rng, p, typ, depth - 1)
         if x[0] == "lit" and not p.neg_literal:
@@ -318,6 +326,9 @@ def gen_atom(rng, p, depth, allow_bare_col=True):
                 # int/float mixing in comparisons
                 if rng.random() < 0.3:
                     rr = gen(rng, p, "int", depth - 1)
+            if typ == "int" and "float" in p.types and rng.random() < 0.2:
+                # ... and the other way round: an integer-typed expression against a decimal
+                rr = gen(rng, p, "float", max(0, depth - 2))
             if l[0] == "lit" and not p.lit_left:
                 l, rr = rr, l
                 if l[0] == "lit":
